@@ -25,6 +25,8 @@ type Profile struct {
 	Corruptions bool // C08
 	Scan        bool // C05 marker scan
 	KEKOutage   bool // C05
+	RuleChanges bool // C01/C08: a caller's grants change between requests (same address)
+	LaxModes    bool // C03: the file may have been given a lax mode by an operator before a reopen
 	CondHeavy   bool // C09
 	FileClient  bool // C09: judge FileClient on a file generated from the model
 	Golden      bool // C03: sometimes start from a golden v1 file
@@ -143,6 +145,12 @@ func RunSeq(s *kernel.Sim, prof *Profile) *Env {
 		if nRestricted > 0 && t.Bool(3, 5) {
 			c = e.Callers[1+t.Choice(nRestricted)]
 		}
+		if prof.RuleChanges && c != e.Super && t.Bool(1, 6) {
+			// the tailnet policy changes: same address, new grants (or none)
+			e.redrawRules(c)
+			e.tracef("caller %d now has rules=%v", c.ID, c.Rules)
+			s.Fault("grants-changed")
+		}
 		op := e.GenOp(w, true)
 		if faultRun && t.Bool(1, 4) {
 			e.Sink.mu.Lock()
@@ -194,6 +202,18 @@ func RunSeq(s *kernel.Sim, prof *Profile) *Env {
 func (e *Env) restart() { e.restartAs("restart", "") }
 
 func (e *Env) restartAs(kind, what string) {
+	lax := false
+	if e.Prof.LaxModes && e.T.Bool(1, 3) {
+		// an operator restored the file from a backup with a lax mode
+		os.Chmod(e.Path, []os.FileMode{0o644, 0o640, 0o664}[e.T.Choice(3)])
+		lax = true
+		e.S.Fault("lax-file-mode")
+	}
+	defer func() {
+		if lax {
+			os.Chmod(e.Path, 0o600)
+		}
+	}()
 	before := e.ReadFile()
 	var stB syscall.Stat_t
 	syscall.Stat(e.Path, &stB)
@@ -396,6 +416,9 @@ func (e *Env) step(st *seqState, c *Caller, op model.Op, cor *Corruption, whoFau
 
 	// ---- fail-closed on audit failure ----
 	if ctx.AuditFail {
+		if !allowed && (res.Class == model.OK || res.Class == model.NotChanged || res.Class == model.NotFound && !illFormed || res.Value != nil || res.Info != nil) {
+			e.fail("denied", "%s: the audit sink failed and a caller without a matching %q grant on %q got %s", desc, mop.Kind.Action(), mop.Name, res)
+		}
 		if res.Class == model.OK || res.Class == model.NotChanged {
 			e.fail("audit-failclosed", "%s: audit record could not be written but the call returned %s", desc, res)
 		}
